@@ -65,12 +65,13 @@ def demo(wt: str, path: str) -> tuple[int, str]:
 
 def main() -> int:
     pid, letter, src = sys.argv[1], sys.argv[2], sys.argv[3]
+    as_letter = sys.argv[4] if len(sys.argv) > 4 else letter      # round 2 files its A/B as C/D
     patch, dem = f"{src}/{letter}.diff", f"{src}/demo_{letter}.py"
     notes = open(f"{src}/notes.md").read() if os.path.exists(f"{src}/notes.md") else ""
     wt = tempfile.mkdtemp(prefix=f"ingest_{pid}{letter}_")
     os.rmdir(wt)
     sh(["git", "-C", "/repo", "worktree", "add", "-q", "--detach", wt, "HEAD"], "/")
-    rec = {"property": pid, "variant": letter, "repo_head": sh("git -C /repo rev-parse --short HEAD", "/").stdout.strip()}
+    rec = {"property": pid, "variant": as_letter, "repo_head": sh("git -C /repo rev-parse --short HEAD", "/").stdout.strip()}
     try:
         shutil.copy(dem, f"{wt}/demo.py")
         rc0, out0 = demo(wt, "demo.py")
@@ -92,7 +93,7 @@ def main() -> int:
             print("pristine demo tail:", out0[-300:])
             print("patched demo tail:", out1[-300:])
             return 1
-        dst = f"/verif/seeded/{pid}-{letter}"
+        dst = f"/verif/seeded/{pid}-{as_letter}"
         os.makedirs(dst, exist_ok=True)
         shutil.copy(patch, f"{dst}/patch.diff")
         shutil.copy(dem, f"{dst}/demo.py")
